@@ -818,5 +818,115 @@ def r9_writer_waited_for(chk: Check) -> None:
             chk.violation("C16.R9", sd, construct, "the worker is waited for BEFORE Finalize is enqueued: the wait always times out and the document is closed (if at all) after the handlers returned", sd.loc(waits[0]))
 
 
+def r10_membership_is_data(chk: Check) -> None:
+    chk.rule("C16.R10", "MEMBERSHIP-IS-DATA(ScenarioRecorder.checks): the VCR writer tells `no check ran on this exchange` (status SKIP) from `checks ran` (SUCCESS / FAILURE) by `case_id in recorder.checks`; so nobody may create keys as a side effect of READING - the mapping is not a defaultdict, or no reader subscripts it outside a membership guard (the CLI statistic runs before the report handlers and would insert an empty list for every case without checks)", floor=2)
+    P = chk.project
+    rec = P.cls("engine/recorder.py:ScenarioRecorder")
+    init = rec.methods.get("__init__")
+    if init is None:
+        raise Undecided("ScenarioRecorder.__init__ not found")
+    inits = [a for a in walk_body(init.node) if isinstance(a, ast.Assign) and any(unparse(t) == "self.checks" for t in a.targets)]
+    auto = any(isinstance(a.value, ast.Call) and last_attr(a.value) in ("defaultdict",) for a in inits)
+    members = []
+    for f in P.all_functions():
+        if isinstance(f.node, ast.Lambda):
+            continue
+        for c in walk_body(f.node):
+            if isinstance(c, ast.Compare) and len(c.ops) == 1 and isinstance(c.ops[0], (ast.In, ast.NotIn)) and unparse(c.comparators[0]).endswith("recorder.checks"):
+                members.append((f, c))
+    for f, c in members:
+        chk.ok("C16.R10", f, f"{f.qualname.partition(':')[2]}: `{unparse(c, 60)}` reads membership as data", "", f.loc(c))
+    if not members:
+        chk.undecided("C16.R10", "cli/commands/run/handlers/cassettes.py", "membership consumer", "the SKIP / SUCCESS decision of the VCR writer was not found")
+        return
+    construct = "reading recorder.checks never creates a key"
+    if not inits:
+        chk.undecided("C16.R10", init, construct, "initialisation of self.checks not found", init.loc())
+    elif not auto:
+        chk.ok("C16.R10", init, construct, "plain dict: a read of a missing key cannot insert it", init.loc(inits[0]))
+    else:
+        # defaultdict: every Load-subscript outside the recorder's own append sites and outside a membership guard inserts
+        bad = []
+        for f in P.all_functions():
+            if isinstance(f.node, ast.Lambda):
+                continue
+            g = None
+            for sub in walk_body(f.node):
+                if isinstance(sub, ast.Subscript) and isinstance(sub.ctx, ast.Load) and (unparse(sub.value).endswith("recorder.checks") or (f.cls is rec and unparse(sub.value) == "self.checks")):
+                    par = parent(sub)
+                    if f.cls is rec and isinstance(par, ast.Attribute) and par.attr == "append":
+                        continue  # the writer itself
+                    g = g or cfg_of(f)
+                    facts = known_conditions(g, g.stmt_nodes_containing(sub))
+                    key = unparse(sub.slice)
+                    if any(k.startswith(f"{key} in ") and k.endswith("checks") and v is True for k, v in facts.items()):
+                        continue
+                    bad.append((f, sub))
+        if bad:
+            f, sub = bad[0]
+            chk.violation("C16.R10", f, construct,
+                          f"`self.checks` is a defaultdict and `{unparse(sub, 60)}` reads it without a membership guard: the read inserts `[]` for a case without checks; the CLI statistic handles ScenarioFinished BEFORE the report handlers, so the VCR writer then finds the id present and writes `status: 'SUCCESS'` with `checks: []` for exchanges on which no check ran (auxiliary requests of ignored_auth, already-seen stateful failures)",
+                          f.loc(sub))
+        else:
+            chk.ok("C16.R10", init, construct, "defaultdict, but every read is behind a membership guard", init.loc(inits[0]))
+
+
+def r11_junit_text_xml_safe(chk: Check) -> None:
+    chk.rule("C16.R11", "XML-SAFE(text handed to junit_xml): failure / error / skip texts contain network-controlled data (response bodies, exception messages); junit_xml turns non-ASCII characters into numeric character references BEFORE its own clean-up, so U+FFFE, U+FFFF and lone surrogates arrive as `&#65534;` - not well-formed XML 1.0, and with prettyprint=True the minidom re-parse raises ExpatError: the report is not written. Every text argument of add_failure_info / add_error_info / add_skipped_info therefore passes through a repo function that deletes the characters XML 1.0 forbids (a `re.sub` / compiled `.sub` with a literal character class that matches U+FFFE, U+FFFF, a surrogate and a C0 control)", floor=3)
+    import re as _re
+
+    P = chk.project
+    mod = P.module(JUNIT)
+
+    def literal_patterns(fn: FuncInfo) -> list[str]:
+        out = []
+        names = set()
+        for c in body_calls(fn):
+            if last_attr(c) == "sub":
+                if isinstance(c.func, ast.Attribute) and isinstance(c.func.value, ast.Name) and c.func.value.id != "re":
+                    names.add(c.func.value.id)
+                elif c.args and const_str(c.args[0]) is not None:
+                    out.append(const_str(c.args[0]))
+        for m in P.modules.values():
+            for st in m.tree.body:
+                if isinstance(st, ast.Assign) and any(isinstance(t, ast.Name) and t.id in names for t in st.targets) and isinstance(st.value, ast.Call) and last_attr(st.value) == "compile" and st.value.args and const_str(st.value.args[0]) is not None:
+                    out.append(const_str(st.value.args[0]))
+        return out  # type: ignore[return-value]
+
+    def is_xml_sanitizer(fn: FuncInfo) -> bool:
+        for pat in literal_patterns(fn):
+            try:
+                rx = _re.compile(pat)
+            except _re.error:
+                continue
+            if all(rx.search(ch) for ch in ("\ufffe", "\uffff", "\ud800", "\x0b")) and not rx.search("a") and not rx.search("\n"):
+                return True
+        return False
+
+    sanitizers = {f.name for f in P.all_functions() if not isinstance(f.node, ast.Lambda) and is_xml_sanitizer(f)}
+    n = 0
+    for fn in mod.functions.values():
+        if isinstance(fn.node, ast.Lambda):
+            continue
+        for c in body_calls(fn):
+            if last_attr(c) not in ("add_failure_info", "add_error_info", "add_skipped_info"):
+                continue
+            for kw in c.keywords:
+                if kw.arg not in ("message", "output"):
+                    continue
+                n += 1
+                construct = f"{fn.qualname.partition(':')[2]}: {last_attr(c)}({kw.arg}=...) is XML-safe"
+                forms = canon(fn, kw.value)
+                wrapped = any(isinstance(x, ast.Call) and last_attr(x) in sanitizers and is_within(kw.value, x) is False for f_ in forms for x in [ast.parse(f_, mode="eval").body]) if sanitizers else False
+                if wrapped:
+                    chk.ok("C16.R11", fn, construct, "passes through " + ", ".join(sorted(sanitizers)), fn.loc(c))
+                else:
+                    chk.violation("C16.R11", fn, construct,
+                                  f"`{unparse(kw.value, 60)}` reaches junit_xml as it is: a failing response whose body contains U+FFFE / U+FFFF (valid UTF-8: `\\xef\\xbf\\xbe`) makes `to_xml_report_file(..., prettyprint=True)` raise `ExpatError: reference to invalid character number` - the handler exception ends the run and junit.xml stays empty",
+                                  fn.loc(c))
+    if n < 3:
+        chk.undecided("C16.R11", "<discovery>", f"sites={n}", "fewer junit text sinks than confirmed by hand")
+
+
 def rules(tier: str) -> list:  # type: ignore[type-arg]
-    return [r1_yaml_flow, r1c_line_protocol, r2_conditional_writer, r2b_failures_once, r3_structured_writers, r6_total_operations, r7_handlers, r8_header_fields, r9_writer_waited_for]
+    return [r1_yaml_flow, r1c_line_protocol, r2_conditional_writer, r2b_failures_once, r3_structured_writers, r6_total_operations, r7_handlers, r8_header_fields, r9_writer_waited_for, r10_membership_is_data, r11_junit_text_xml_safe]
